@@ -145,6 +145,15 @@ def file_job(job):
             errors.append(("write", repr(v)[:60], type(e).__name__ + ":" + str(e)[:60]))
     path = os.path.join(scratch, "c01-%d-%d.numbers" % (os.getpid(), idx))
     try:
+        if idx % 3 == 1 and len(values) > 20:
+            # the same Document object saved more than once with further writes in between (documents are saved repeatedly in
+            # practice): everything written so far must read back from the LAST file
+            half = len(values) // 2
+            doc.save(path)
+            for (r, c), v in list(zip(pos, values))[half:]:
+                tb.write(r, c, v)
+            for (r, c), v in list(zip(pos, values))[:half:7]:
+                tb.write(r, c, v)
         doc.save(path)
         doc2 = Document(path)
         tb2 = doc2.sheets[0].tables[0]
